@@ -197,7 +197,7 @@ pub struct RandomOcc {
 }
 
 pub fn run(run: &mut Run) -> &'static str {
-    let noise = run.tier.pick(4, 64);
+    let noise = run.tier.pick(16, 128);
     let seed = run.seed;
     let mut items = vec![];
     for rook in [true, false] {
@@ -216,7 +216,7 @@ pub fn run(run: &mut Run) -> &'static str {
         _ => 200,
     });
     run.exhaustive_part("tables", RULE, items, run_item);
-    let cases = run.tier.pick(400_000, 20_000_000);
+    let cases = run.tier.pick(4_000_000, 100_000_000);
     let strat = (any::<bool>(), 0u8..64, any::<u64>(), any::<u64>(), 0u8..4).prop_map(|(rook, square, a, b, dens)| RandomOcc {
         rook,
         square,
